@@ -4,6 +4,7 @@ Line-protocol driver for the image-metadata model (C02): one extraction program 
 import DarsiaModel.Basic
 import DarsiaModel.Coord
 import DarsiaModel.ImageMeta
+import DarsiaModel.ImageArr
 open Darsia Darsia.Im
 
 def pDim : P Dim := do let t ← P.tok; match Dim.parse t with | some d => pure d | none => failure
@@ -57,6 +58,28 @@ def showImg (im : Img) : String :=
   " ".intercalate (im.date.map (showOpt toString)) ++ " | " ++ showOpt toString im.ref ++ " | " ++
   " ".intercalate (im.slabs.map showSlab)
 
+/-- root with pixel array: C rid cs series scalar T time date -/
+def pRootA (C : Nat) : P (Except Err ImgA) := do
+  let rid ← P.nat
+  let cs ← pCS
+  let series ← P.bool; let scalar ← P.bool; let T ← P.nat
+  let time ← P.opt (P.list (P.opt P.rat))
+  let date ← P.list (P.opt P.int)
+  pure (mkRootA rid cs series scalar T C time date)
+
+/-- all multi-indices of a box in C order (last index fastest), as numpy `ravel()` lists them -/
+def boxC : List Nat → List (List Nat)
+  | [] => [[]]
+  | n :: ns => (List.range n).flatMap fun i => (boxC ns).map (i :: ·)
+
+def flatC (shape idx : List Nat) : Nat := (List.zip shape idx).foldl (fun acc p => acc * p.1 + p.2) 0
+
+/-- the whole pixel array as numpy prints it: shape, then every entry's tag encoded like the harness payload -/
+def showArr (rootShape : List Nat) (a : ImgA) : String :=
+  showNats a.arr.shape ++ " | " ++ showNats ((boxC a.arr.shape).map fun idx =>
+    let tg := a.arr.get idx
+    ((tg.rid * 8 + tg.t) * 4096 + flatC rootShape tg.vox) * 2 + tg.comp)
+
 def handle : P String := do
   let op ← P.tok
   match op with
@@ -69,6 +92,19 @@ def handle : P String := do
   | "append" => do
     let a ← pRoot; let b ← pRoot; let off ← P.opt P.rat; let steps ← pSteps
     pure (showExcept showImg (do let x ← a; let y ← b; let s ← x.append y off; s.run steps))
+  | "aprog" => do
+    let C ← P.nat; let r ← pRootA C; let steps ← pSteps
+    pure (showExcept (fun x => x) (do let im ← r; let f ← im.run steps; pure (showArr im.md.cs.shape f)))
+  | "astack" => do
+    let C ← P.nat; let roots ← P.list (pRootA C); let steps ← pSteps
+    pure (showExcept (fun x => x) (do
+      let ims ← roots.mapM id; let s ← stackA ims; let f ← s.run steps
+      pure (showArr ((ims.head?.map (·.md.cs.shape)).getD []) f)))
+  | "aappend" => do
+    let C ← P.nat; let a ← pRootA C; let b ← pRootA C; let off ← P.opt P.rat; let steps ← pSteps
+    pure (showExcept (fun x => x) (do
+      let x ← a; let y ← b; let s ← x.append y off; let f ← s.run steps
+      pure (showArr x.md.cs.shape f)))
   | _ => failure
 
 def dispatch (toks : List String) : Option String := (handle.run toks).map Prod.fst
